@@ -133,7 +133,7 @@ func (c *DataConf) files() map[string]any {
 				"TimeoutReadClient": def(cl.TimeoutReadClientMs, 30000), "TimeoutWriteClient": def(cl.TimeoutWriteClientMs, 60000),
 				"TimeoutReadClientAgain": def(cl.TimeoutReadClientAgainMs, 30000),
 				"ReqWriteBufferSize": def(cl.ReqWriteBufferSize, 512), "ReqFlushInterval": 0,
-				"ResFlushInterval": def(cl.ResFlushIntervalMs, -1), "CancelOnClientClose": false},
+				"ResFlushInterval": resFlush(cl.ResFlushIntervalMs), "CancelOnClientClose": false},
 		}
 		gslb[cl.Name] = map[string]int{}
 		ct[cl.Name] = map[string][]map[string]any{}
@@ -157,6 +157,20 @@ func (c *DataConf) files() map[string]any {
 		"gslb.data":          map[string]any{"Clusters": gslb, "Hostname": "", "Ts": "0"},
 		"cluster_table.data": map[string]any{"Config": ct, "Version": c.Version},
 	}
+}
+
+// ResFlushZero selects ResFlushInterval 0 (no periodic flush); the zero value of
+// Cluster.ResFlushIntervalMs means the shipped default -1 (flush immediately).
+const ResFlushZero = -1000
+
+func resFlush(v int) int {
+	switch v {
+	case 0:
+		return -1
+	case ResFlushZero:
+		return 0
+	}
+	return v
 }
 
 func defs(v, d string) string {
